@@ -118,27 +118,50 @@ def _chain_default():
     return d.value
 
 
-def _setup_of(where, c, default_setup):
-    """to_chain_structure(qc[, setup]) -> TopoLinear / TopoCircular"""
-    if not (isinstance(c, ast.Call) and isinstance(c.func, ast.Name) and c.func.id == "to_chain_structure"):
-        raise Refuse(f"{where}: not a call of to_chain_structure")
-    setup = default_setup
-    if len(c.args) not in (1, 2) or not (isinstance(c.args[0], ast.Name) and c.args[0].id == "qc"):
-        raise Refuse(f"{where}: arguments")
-    if len(c.args) == 2:
-        if not isinstance(c.args[1], ast.Constant):
-            raise Refuse(f"{where}: setup not a constant")
-        setup = c.args[1].value
-    for kw in c.keywords:
-        if kw.arg == "setup" and isinstance(kw.value, ast.Constant) and len(c.args) == 1:
-            setup = kw.value.value
-        else:
-            raise Refuse(f"{where}: keyword {kw.arg}")
+def _topo_name(where, setup):
     if setup == "linear":
         return "TopoLinear"
     if setup == "circular":
         return "TopoCircular"
     raise Refuse(f"{where}: setup {setup!r}")
+
+
+def _setup_expr(where, e, env):
+    """value of a `setup` argument: a string constant, a local bound to one, or the conditional expression
+    `A if qc.N < self.num_qubits else B` (any equivalent comparison)  ->  (topology for a full-width circuit, for a narrower one or None)"""
+    if isinstance(e, ast.Name) and e.id in env:
+        return env[e.id]
+    if isinstance(e, ast.Constant) and isinstance(e.value, str):
+        return (_topo_name(where, e.value), None)
+    if isinstance(e, ast.IfExp):
+        kind = _width_cmp(e.test)
+        yes, no = _setup_expr(where, e.body, env), _setup_expr(where, e.orelse, env)
+        if yes[1] is not None or no[1] is not None:
+            raise Refuse(f"{where}: nested width tests")
+        if kind == "narrow":
+            return (no[0], yes[0])
+        if kind == "notnarrow":
+            return (yes[0], no[0])
+        raise Refuse(f"{where}: conditional setup does not test qc.N against self.num_qubits")
+    raise Refuse(f"{where}: setup is not a constant, a local holding one, or a width-conditional")
+
+
+def _setup_of(where, c, default_setup, env=None):
+    """to_chain_structure(qc[, setup]) -> (topology for a full-width circuit, topology for a narrower circuit or None)"""
+    env = env or {}
+    if not (isinstance(c, ast.Call) and isinstance(c.func, ast.Name) and c.func.id == "to_chain_structure"):
+        raise Refuse(f"{where}: not a call of to_chain_structure")
+    if len(c.args) not in (1, 2) or not (isinstance(c.args[0], ast.Name) and c.args[0].id == "qc"):
+        raise Refuse(f"{where}: arguments")
+    val = (_topo_name(where, default_setup), None)
+    if len(c.args) == 2:
+        val = _setup_expr(where, c.args[1], env)
+    for kw in c.keywords:
+        if kw.arg == "setup" and len(c.args) == 1:
+            val = _setup_expr(where, kw.value, env)
+        else:
+            raise Refuse(f"{where}: keyword {kw.arg}")
+    return val
 
 
 def _is_qc_N(e):
@@ -150,11 +173,12 @@ def _width_cmp(test):
     if not (isinstance(test, ast.Compare) and len(test.ops) == 1):
         return None
     a, b, op = test.left, test.comparators[0], test.ops[0]
+    tab = None
     if _is_qc_N(a) and _is_self_attr(b, "num_qubits"):
-        return "narrow" if isinstance(op, ast.Lt) else "wide" if isinstance(op, ast.Gt) else None
+        tab = {ast.Lt: "narrow", ast.Gt: "wide", ast.GtE: "notnarrow", ast.LtE: "notwide"}
     if _is_self_attr(a, "num_qubits") and _is_qc_N(b):
-        return "narrow" if isinstance(op, ast.Gt) else "wide" if isinstance(op, ast.Lt) else None
-    return None
+        tab = {ast.Gt: "narrow", ast.Lt: "wide", ast.LtE: "notnarrow", ast.GtE: "notwide"}
+    return tab.get(type(op)) if tab else None
 
 
 def _is_raise_value_error(s):
@@ -229,21 +253,35 @@ def _topo_of(chain, default_setup):
         if [x.arg for x in m.args.args] != ["self", "qc"]:
             raise Refuse(f"{where}: signature")
         body = _strip_doc(m.body)
-        unrouted, narrow = [], None
+        unrouted, narrow, env = [], None, {}
         while body and isinstance(body[0], ast.For):                 # refusals come first
             unrouted += _guard_loop(where, body[0])
             body = body[1:]
-        if len(body) == 2 and isinstance(body[0], ast.If) and not body[0].orelse and _width_cmp(body[0].test) == "narrow" \
-                and len(body[0].body) == 1 and isinstance(body[0].body[0], ast.Return):
-            narrow = _setup_of(where, body[0].body[0].value, default_setup)
+        # locals holding a setup value:  setup = "linear" if qc.N < self.num_qubits else "circular"
+        while body and isinstance(body[0], ast.Assign) and len(body[0].targets) == 1 and isinstance(body[0].targets[0], ast.Name) \
+                and body[0].targets[0].id not in ("qc", "self"):
+            env[body[0].targets[0].id] = _setup_expr(where, body[0].value, env)
             body = body[1:]
+        # if qc.N < self.num_qubits: return to_chain_structure(qc, A)   [else:] return to_chain_structure(qc, B)
+        if body and isinstance(body[0], ast.If) and _width_cmp(body[0].test) in ("narrow", "notnarrow") \
+                and len(body[0].body) == 1 and isinstance(body[0].body[0], ast.Return):
+            rest = body[0].orelse if body[0].orelse else body[1:]
+            if (body[0].orelse and len(body) != 1) or len(rest) != 1 or not isinstance(rest[0], ast.Return):
+                raise Refuse(f"{where}: unknown shape after the width test")
+            a = _setup_of(where, body[0].body[0].value, default_setup, env)
+            b = _setup_of(where, rest[0].value, default_setup, env)
+            if a[1] is not None or b[1] is not None:
+                raise Refuse(f"{where}: nested width tests")
+            full, narrow = (b[0], a[0]) if _width_cmp(body[0].test) == "narrow" else (a[0], b[0])
+            return full, (None if narrow == full else narrow), unrouted
         if len(body) != 1:
             raise Refuse(f"{where}: unknown shape ({len(body)} trailing statements)")
         s = body[0]
-        if isinstance(s, ast.Raise) and isinstance(s.exc, ast.Name) and s.exc.id == "NotImplementedError" and not unrouted and narrow is None:
+        if isinstance(s, ast.Raise) and isinstance(s.exc, ast.Name) and s.exc.id == "NotImplementedError" and not unrouted and not env:
             return "TopoNone", None, []
         if isinstance(s, ast.Return):
-            return _setup_of(where, s.value, default_setup), narrow, unrouted
+            full, narrow = _setup_of(where, s.value, default_setup, env)
+            return full, (None if narrow == full else narrow), unrouted
         raise Refuse(f"{where}: unknown body")
     raise Refuse("no topology_map in the class chain")
 
